@@ -92,6 +92,9 @@ func mutated(op, path string) {
 func fallible(op, path string) error {
 	ops++
 	note("o")
+	if os.Getenv("VP_TRACE_OPS") != "" {
+		event("op #" + strconv.Itoa(ops) + " " + op + " " + path)
+	}
 	if faultAt > 0 && ops == faultAt {
 		event("fault at #" + strconv.Itoa(ops) + " " + op + " " + path)
 		return &os.PathError{Op: op, Path: path, Err: syscall.EIO}
@@ -102,6 +105,8 @@ func fallible(op, path string) error {
 type File struct {
 	f    *os.File
 	path string
+	// the first Read on a handle is one fallible operation (as in the model)
+	readChecked bool
 }
 
 func (f *File) Write(b []byte) (int, error) {
@@ -121,6 +126,12 @@ func (f *File) WriteString(s string) (int, error) { return f.Write([]byte(s)) }
 func (f *File) Read(b []byte) (int, error) {
 	if f == nil {
 		return 0, os.ErrInvalid
+	}
+	if !f.readChecked {
+		f.readChecked = true
+		if err := fallible("read", f.path); err != nil {
+			return 0, err
+		}
 	}
 	return f.f.Read(b)
 }
@@ -153,7 +164,7 @@ func OpenFile(name string, flag int, perm os.FileMode) (*File, error) {
 	} else if flag&os.O_TRUNC != 0 && existed {
 		mutated("truncate", name)
 	}
-	return &File{f, name}, nil
+	return &File{f: f, path: name}, nil
 }
 func Create(name string) (*File, error) {
 	return OpenFile(name, os.O_RDWR|os.O_CREATE|os.O_TRUNC, 0o666)
@@ -166,11 +177,16 @@ func Open(name string) (*File, error) {
 	if err != nil {
 		return nil, err
 	}
-	return &File{f, name}, nil
+	return &File{f: f, path: name}, nil
 }
 func ReadFile(name string) ([]byte, error) {
 	if err := fallible("open", name); err != nil {
 		return nil, err
+	}
+	if st, err := os.Stat(name); err == nil && !st.IsDir() {
+		if err := fallible("read", name); err != nil {
+			return nil, err
+		}
 	}
 	return os.ReadFile(name)
 }
